@@ -40,3 +40,30 @@ pub fn new() -> Scru128Id {
     sched::yield_point(Yield::IdAssigned);
     id
 }
+
+/// `Scru128Generator`: an independent generator instance. Its documented guarantee is
+/// monotonicity *per instance*; two instances only agree on the millisecond timestamp. The model
+/// gives each instance its own counter, so ids drawn from different instances within the same
+/// model-clock millisecond are NOT ordered - exactly the freedom the real type has.
+pub struct Scru128Generator {
+    seq: u32,
+}
+impl Scru128Generator {
+    pub fn new() -> Self {
+        Scru128Generator { seq: 0 }
+    }
+    pub fn generate(&mut self) -> Scru128Id {
+        self.seq += 1;
+        let ts = super::stdm::time::clock() & 0xFFFF_FFFF_FFFF;
+        let v = ((ts as u128) << 80) | ((self.seq as u128) << 32);
+        trace::push(Ev::IdAssigned { id: v });
+        let id = Scru128Id::from_u128(v);
+        sched::yield_point(Yield::IdAssigned);
+        id
+    }
+}
+impl Default for Scru128Generator {
+    fn default() -> Self {
+        Self::new()
+    }
+}
